@@ -191,21 +191,57 @@ def check(ctx):
     if len(tv) != 1:
         raise AnalysisError('FileFormat.__transform_value not found')
     tv = tv[0]
+    tr = [m for n, m in base.methods.items() if n.endswith('__transform_row')][0]
+    # how the row transformer calls the value transformer: {k: T(<args>) for k, v in row.items()} - which argument is the cell and
+    # which identifies the field (the field object self.fields[k], or the field name k)
+    comp = find_expr('{_k: __T(...) for (_k, _v) in _row.items()}', tr.node)
+    vpar = fpar = fkind = None
+    if len(comp) == 1:
+        node_, b_ = comp[0]
+        call_ = node_.value
+        tps = [p_ for p_ in tv.params if p_ not in ('self', 'cls')]
+        for i_, a_ in enumerate(call_.args):
+            if i_ >= len(tps):
+                break
+            if isinstance(a_, ast.Name) and a_.id == b_['_v']:
+                vpar = tps[i_]
+            elif match_expr('self.fields[%s]' % b_['_k'], a_) is not None:
+                fpar, fkind = tps[i_], 'field'
+            elif isinstance(a_, ast.Name) and a_.id == b_['_k']:
+                fpar, fkind = tps[i_], 'name'
+        if not (isinstance(call_.func, ast.Attribute) and call_.func.attr.endswith('__transform_value')):
+            vpar = None
+    run.check(vpar is not None and fpar is not None, 'NULL', tr.where, tr.qualname,
+              'dict((k, transform(v, self.fields[k])) for k, v in row.items())',
+              'row values are not transformed with the serializer of their own field')
+    vpar = vpar or tv.params[1]
     paths = Enumerator(where=tv.qualname).paths(tv.node.body)
     first = paths[0].guards()[0] if paths and paths[0].guards() else None
-    okn = first is not None and u(first[0]) == '%s is None' % tv.params[1]
+    okn = first is not None and u(first[0]) == '%s is None' % vpar
     for p in paths:
         g = p.guards()
-        if g and g[0][1] and u(g[0][0]) == '%s is None' % tv.params[1]:
+        if g and g[0][1] and u(g[0][0]) == '%s is None' % vpar:
             r = [it.node for it in p.items if it.kind == 'return']
             okn = okn and len(r) == 1 and u(r[0].value) == 'self.NULL_VALUE'
     run.check(okn, 'NULL', tv.where, tv.qualname, 'if value is None: return self.NULL_VALUE (first statement)',
               'None is handed to a serializer (or something other than the null marker is written)')
-    tr = [m for n, m in base.methods.items() if n.endswith('__transform_row')][0]
-    run.check(has_expr('dict(((_k, __T(_v, self.fields[_k])) for (_k, _v) in _row.items()))', tr.node) or
-              has_expr('{_k: __T(_v, self.fields[_k]) for (_k, _v) in _row.items()}', tr.node), 'NULL', tr.where, tr.qualname,
-              'dict((k, transform(v, self.fields[k])) for k, v in row.items())',
-              'row values are not transformed with the serializer of their own field')
+    # the serializer applied is the one recorded for that very field: field.descriptor['serializer'](value), or
+    # self.<table>[name](value) with <table> filled in __init__ under the field's own name
+    if fpar is not None:
+        from sa.pathvals import returned_values as _rv
+        rets_ = [v_ for v_ in _rv(tv.node, tv.qualname) if isinstance(v_, ast.Call)]     # locals resolved along each path
+        if fkind == 'field':
+            oks = any(match_expr("%s.descriptor['serializer'](%s)" % (fpar, vpar), r_) is not None for r_ in rets_)
+        else:
+            oks = False
+            for r_ in rets_:
+                b_ = match_expr('_tbl[%s](%s)' % (fpar, vpar), r_)
+                if b_ is not None and b_['_tbl'].startswith('self.'):
+                    init_ = ctx.N(base.methods['__init__'])
+                    oks = any(match_stmt('%s[_f.name] = ___' % b_['_tbl'], x_) is not None for x_ in ast.walk(init_.node)
+                              if isinstance(x_, ast.Assign))
+        run.check(oks, 'NULL', tv.where, tv.qualname, 'return <serializer recorded for this field>(value)',
+                  'the value is not passed to the serializer recorded for its own field')
     wr = base.methods['write_row']
     run.check((has_stmt('_t = __TR(_row)', wr.node) and has_expr('self.write_transformed_row(_t)', wr.node)) or
               has_expr('self.write_transformed_row(__TR(_row))', wr.node), 'NULL', wr.where, wr.qualname,
@@ -214,14 +250,24 @@ def check(ctx):
     run.rule('SERL', 'SERIALIZER-LOCAL: the serializer chosen for a field depends only on that field (its type, its own format '
                      'property) and on the class table / default - never on state written while handling earlier fields')
     finit_ = ctx.N(base.methods['__init__'])
+    def _is_ser_store(x, loop):
+        # the statement that records the serializer chosen for the field: a store into the field's descriptor or into a table
+        # keyed by the field, whose value comes from the class table lookup of this iteration
+        if not (isinstance(x, ast.Assign) and len(x.targets) == 1 and isinstance(x.targets[0], ast.Subscript)):
+            return False
+        if "['serializer']" in u(x.targets[0]):
+            return True
+        looked = {t.id for a in ast.walk(loop) if isinstance(a, ast.Assign) and 'SERIALIZERS' in u(a.value)
+                  for t in a.targets if isinstance(t, ast.Name)}
+        return bool(looked & {n_.id for n_ in ast.walk(x.value) if isinstance(n_, ast.Name)}) or 'SERIALIZERS' in u(x.value)
     floops = [n for n in own_nodes(finit_.node) if isinstance(n, ast.For) and u(n.iter).endswith('schema.fields')
-              and any(isinstance(x, ast.Assign) and "['serializer']" in u(x.targets[0]) for x in ast.walk(n))]
+              and any(_is_ser_store(x, n) for x in ast.walk(n))]
     if len(floops) != 1:
         raise AnalysisError('FileFormat.__init__: the loop assigning field serializers not found')
     fl = floops[0]
     ffacts = Facts(finit_, include_nested=False)
     fvar = fl.target.id
-    st = [x for x in ast.walk(fl) if isinstance(x, ast.Assign) and "['serializer']" in u(x.targets[0])]
+    st = [x for x in ast.walk(fl) if _is_ser_store(x, fl)]
     carried = set()
     for x in ast.walk(fl):
         # stores into objects that live across iterations (anything not rooted at the loop variable)
@@ -253,6 +299,9 @@ def check(ctx):
 
     from rules import independence
     independence.r28_functions(ctx, [(finit_, {})])
+    # the bytes of a row are fixed inside write_row, before the row goes downstream
+    from rules import observers as _obs
+    _obs.writer_keeps_no_row(ctx)
     run.rule('R16o', 'COLUMN-ORDER: a format that writes each row as a JSON object is read back column-wise in sorted key order '
                      '(LF2) and paired by position with the stamped schema, so it must stamp the fields in sorted order, write '
                      'arrays, or otherwise normalise the order')
